@@ -1211,7 +1211,8 @@ func globCapture(pat, s string) []string {
 // different values maps to "<conflict>".
 func (r *Run) fieldStores(fn *ssa.Function) map[string]string {
 	out := map[string]string{}
-	for _, s := range r.P.Facts(fn).StoreFacts() {
+	// stores of single-use helpers are included, rendered in fn's terms (a literal built by an extracted helper)
+	for _, s := range r.scopedStores(fn) {
 		i := strings.Index(s.S, " := ")
 		if i < 0 {
 			continue
